@@ -528,6 +528,9 @@ func rlReflectDriver(raw json.RawMessage) *Out {
 	if c.Opts.EnumNums {
 		out.Key += "|enumNums"
 	}
+	if c.Opts.ZeroPrefixed {
+		out.Key += "|zeroPrefixed"
+	}
 	fam := rlFamily(d.Kind)
 	where := d.Card + ":" + d.Kind
 	set := rlSetAttrs(d)
@@ -583,9 +586,18 @@ func rlReflectDriver(raw json.RawMessage) *Out {
 	out.Nontrivial = len(set) > 0 || d.Pres != "implicit" || d.Card != "single"
 	wantNames := []string{rlSubject(c.Opts)}
 	wantPaths := [][]int32{{1}}
-	if c.Opts.Anchor {
-		wantNames = []string{"anchor", rlSubject(c.Opts)}
-		wantPaths = [][]int32{{1}, {2}}
+	if c.Opts.Anchor || c.Opts.Siblings {
+		wantNames, wantPaths = nil, nil
+		if c.Opts.Anchor {
+			wantNames = append(wantNames, "anchor")
+		}
+		if c.Opts.Siblings {
+			wantNames = append(wantNames, rlSiblingNames...)
+		}
+		wantNames = append(wantNames, rlSubject(c.Opts))
+		for i := range wantNames {
+			wantPaths = append(wantPaths, []int32{int32(i + 1)})
+		}
 	}
 	projections := map[string]*rlObjProj{}
 	evProj := map[string]any{}
